@@ -163,12 +163,11 @@ Proof.
     + cbn [mt zero_slot set_job set_jobs set_pl]. lia.
     + apply fli_none. rewrite D, N. cbn [mt zero_slot set_job set_jobs set_pl]. lia.
   - (* CInitBuf *)
-    destruct (ldm (mt s)); inv_some H; [apply fli_none; cbn; lia|].
-    match goal with |- FlI cfg (finish_op cfg ?x ?r) => destruct (ir_finish_op cfg x r) as (D & N & _) end.
-    apply fli_none. rewrite D, N. cbn. lia.
+    inv_some H; apply fli_none; cbn; lia.
   - (* CInitSeq *)
-    inv_some H. match goal with |- FlI cfg (finish_op cfg ?x ?r) => destruct (ir_finish_op cfg x r) as (D & N & _) end.
-    apply fli_none. rewrite D, N. cbn [mt set_sr set_pl]. lia.
+    destruct (ldm (mt s)); inv_some H;
+    (match goal with |- FlI ?c (finish_op _ ?x ?r) => destruct (ir_finish_op c x r) as (D & N & _) end;
+     apply fli_none; rewrite D, N; cbn [mt set_sr set_pl]; lia).
 Qed.
 
 Lemma fli_init cfg ops : FlI cfg (init cfg ops).
